@@ -496,11 +496,11 @@ def run(ctx):
 
     shared(ctx, "C16.h", c17.rule_a, Effects(ctx.model), (lambda mod, qn: any(w in mod for w in ("split_bregman_tvd", "h1_regularization", "tvd", "linear_solvers", "andersonacceleration"))), 1,
            why="a solver that writes into the arrays it is given (x0, coefficients) makes the next call with the same arrays depend on this one")
-    rule_h(ctx)
-    rule_a(ctx)
-    rule_b(ctx)
-    rule_c(ctx)
-    rule_d(ctx)
-    rule_e(ctx)
-    rule_f(ctx)
-    rule_g(ctx)
+    ctx.guard(rule_h, ctx)
+    ctx.guard(rule_a, ctx)
+    ctx.guard(rule_b, ctx)
+    ctx.guard(rule_c, ctx)
+    ctx.guard(rule_d, ctx)
+    ctx.guard(rule_e, ctx)
+    ctx.guard(rule_f, ctx)
+    ctx.guard(rule_g, ctx)
